@@ -84,7 +84,9 @@ def logical_statements(script):
                 body = '\n'.join(buf[1:-1])
                 if body.count('(') != body.count(')'):
                     odd = True
-                out.append(('verbatim', '\n'.join(buf)))
+                # a closing fence line with text after the backticks is not a pure verbatim block: the whole
+                # buffer is then an ordinary (and odd) statement
+                out.append(('verbatim' if not line.strip().strip('`') else 'equation', '\n'.join(buf)))
                 buf, fence = [], False
             else:
                 fence = True
@@ -114,17 +116,21 @@ def lhs_name(stmt):
     return m.group(1)
 
 
-def classify_internal(e):
-    """Key for an exception that is not one of the parser's own errors."""
+def classify_internal(e, script=''):
+    """Key for an exception that is not one of the parser's own errors.  The keys of the known defects are
+    predicates over the exception class and the INPUT (not over fsic's function names or source lines), so that a
+    refactoring of the parser does not turn a known finding into a new one."""
     tb = traceback.extract_tb(e.__traceback__)
     if any(f.filename == '<string>' for f in tb):
         return 'exec-at-parse-raises'
     inner = [f for f in tb if f.filename.endswith('parser.py')]
     fn = inner[-1].name if inner else '?'
-    if fn == 'parse_equation' and isinstance(e, (ValueError, IndexError, KeyError, AttributeError, TypeError)):
+    if isinstance(e, (ValueError, IndexError, KeyError, AttributeError, TypeError)) and ('{' in script or '}' in script):
         return 'stray-brace-format-error'
-    if fn == 'parse_equation_terms' and isinstance(e, ValueError):
-        return 'no-equals-unpack-error'
+    if isinstance(e, ValueError):
+        stmts, _, _ = logical_statements(script)
+        if any('=' not in text for kind, text in stmts if kind == 'equation'):
+            return 'no-equals-unpack-error'
     return f'internal-error:{type(e).__name__}@{fn}'
 
 
@@ -162,7 +168,7 @@ def check(script, violate, dist=None, expect_accept=False, timeout=20):
             except _Timeout:
                 raise
             except Exception as e:  # noqa: BLE001
-                key = classify_internal(e)
+                key = classify_internal(e, script)
                 if expect_accept and not key.startswith('exec-at-parse'):
                     key = 'grammar-script-rejected'   # a well-formed script has no stray braces / missing `=`
                 tag = 'internal:' + type(e).__name__
